@@ -136,7 +136,9 @@ def discharge(obligations, timeout=10, jobs=None, want_models=True):
             continue
         txt = to_smt2(ob, want_model=want_models)
         stages = []
-        if len(ob.axioms) > 4:
+        if len(ob.axioms) >= 1:
+            # first without any lemma instance / model axiom (fewer hypotheses: sound for a proof).  Even a few lambda-heavy lemma instances
+            # can send a solver astray on a goal that does not need them (measured: 3 Sum instances, 0.0 s without, > 60 s with)
             stages.append(("noaxioms", to_smt2(ob, with_axioms=False)))
             nreq = len(getattr(ob, "req_axioms", []))
             if 0 < nreq < len(ob.axioms):
